@@ -189,6 +189,19 @@ def grammar_rules(ctx, lib):
         if kw not in grams:
             continue
         b, g, e = grams[kw]
+        tf = try_form(b, e) if g[0] != "rmap" else None
+        if tf is not None:
+            # `let (rest, (l, r)) = preceded(tag(kw), formula_pair)(input)?; Ok((rest, Formula::V(Box::new(l), Box::new(r))))` - also after a shared helper that takes the
+            # keyword and the variant constructor as arguments was inlined (mirlib/inline.py): the constants reach the tag and the constructor call
+            g1, rest_ok, value = tf
+            ok = linear(g1) == [(False, ("tag", kw)), (True, ("ref", "formula_pair"))] and rest_ok
+            ctx.ob(rb, kw, ok, where=b.where(), expected="~'%s' <formula_pair>" % kw, found=lin_str(linear(g1)))
+            okv = False
+            if value is not None:
+                ctor, args = value
+                okv = ctor == variant and args == ["0", "1"]
+            ctx.ob(ro, "%s->%s" % (kw, variant), okv, where=b.where(), expected="Formula::%s(Box::new(first), Box::new(second))" % variant, found=str(value))
+            continue
         ok = g[0] == "rmap" and linear(g[1]) == [(False, ("tag", kw)), (True, ("ref", "formula_pair"))]
         ctx.ob(rb, kw, ok, where=b.where(), expected="~'%s' <formula_pair>" % kw, found=lin_str(linear(g[1])) if g[0] == "rmap" else str(g)[:200])
         if g[0] == "rmap" and g[2][0] == "closure":
@@ -273,6 +286,48 @@ def grammar_rules(ctx, lib):
                 if p.startswith("nom::") and flow.last(p) in ("cut", "fail"):
                     cuts.append(bd.where(t.get("loc")))
     ctx.ob(ra, "no-cut", not cuts, expected="no cut/fail combinator in the parser", found=cuts)
+
+
+def try_form(b, e):
+    """`let (rest, (l, r)) = P(input)?; Ok((rest, V(Box::new(l), Box::new(r))))`  ->  (grammar of P, rest is P's remaining input, (variant name, [payload components boxed
+    in order])) or None.  The variant is built by the aggregate itself or by a call of the variant's constructor function (also through a fn value)."""
+    x = flow.expand_phi(flow.Defs(b), e)
+    if x[0] != "alts" or len(x[1]) != 2:
+        return None
+    oks = [a for a in x[1] if a[0] == "adt" and a[1].endswith("result::Result") and a[2] == "Ok"]
+    res = [a for a in x[1] if a[0] == "call" and flow.last(a[2]) == "from_residual"]
+    if len(oks) != 1 or len(res) != 1:
+        return None
+    br = flow.find(res[0], lambda n_: n_[0] == "call" and flow.last(n_[2]) == "branch")
+    if len(br) < 1:
+        return None
+    branch = br[0]
+    payload = ("field", ("downcast", branch, "Continue"), "0")
+    tup = dict(oks[0][3]).get("0")
+    if tup is None or tup[0] != "tuple" or len(tup[1]) != 2:
+        return None
+    rest_ok = tup[1][0] == ("field", payload, "0")
+    v = tup[1][1]
+    value = None
+    comps = None
+    if v[0] == "adt" and "Formula" in v[1]:
+        name, comps = v[2], [x_ for _, x_ in sorted(v[3])]
+    elif v[0] == "call" and v[3] and v[3][0][0] == "fnitem" and "parser::Formula::" in v[3][0][1] and v[1] == "<indirect>":
+        name, comps = v[3][0][1].split("::")[-1], list(v[3][1:])
+    elif v[0] == "call" and "parser::Formula::" in flow.sg(v[1]):
+        name, comps = flow.sg(v[1]).split("::")[-1], list(v[3])
+    if comps is not None:
+        args = []
+        for c_ in comps:
+            if c_[0] == "call" and flow.last(c_[2]) == "new" and "Box" in c_[1] and c_[3] and c_[3][0][0] == "field" and c_[3][0][1] == ("field", payload, "1"):
+                args.append(c_[3][0][2])
+            else:
+                args.append("?")
+        value = (name, args)
+    inner = branch[3][0] if branch[3] else None
+    if inner is None:
+        return None
+    return G(inner), rest_ok, value
 
 
 def applied_to_input(e):
